@@ -153,6 +153,39 @@ def oracle(ck, tier, deep):
             ck.violation(dict(site="reproject_image_into_polar", clause="uniform-grid"), rep, "radial grid is not uniform")
         if R.shape[0] > 2 and not (0.5 * dr <= R[1, 0] - R[0, 0] <= 1.0001 * dr):
             ck.violation(dict(site="reproject_image_into_polar", clause="dr-grid"), rep, f"radial step {R[1, 0] - R[0, 0]} for dr={dr}")
+    # … and what comes back is the image at those positions: where a polar position lies outside the frame there is no image (0),
+    # also when the frame's border is bright (background, signal reaching the edge, origin near an edge); total intensity is then
+    # still that of the pixels
+    for _ in range(20 if not deep else 150):
+        rows, cols = (int(v) for v in rng.integers(12, 40, size=2))
+        o = (int(rng.integers(0, rows)), int(rng.integers(0, cols)))
+        if rng.random() < 0.3:
+            o = (o[0] - rows, o[1] - cols)                 # the same point counted from the end
+        im = 1.0 + rng.random((rows, cols))
+        ck.count(("S.reproject-border", rows % 2, cols % 2, o[0] < 0), suite="S.reproject")
+        rep = dict(shape=[rows, cols], origin=list(o), image="1 + uniform noise (bright border)")
+        try:
+            out, R, T = quiet(polar.reproject_image_into_polar, im, origin=o)
+        except Exception as e:
+            ck.violation(dict(site="reproject_image_into_polar", clause="exception"), rep, f"{type(e).__name__}: {e}")
+            continue
+        oo = (o[0] % rows, o[1] % cols)
+        prow, pcol = oo[0] - R * np.cos(T), oo[1] + R * np.sin(T)
+        outside = (prow < -1) | (prow > rows) | (pcol < -1) | (pcol > cols)
+        inside = (prow >= 1) & (prow <= rows - 2) & (pcol >= 1) & (pcol <= cols - 2)
+        if outside.any() and np.abs(out[outside]).max() != 0:
+            ck.violation(dict(site="reproject_image_into_polar", clause="outside-is-empty"), rep,
+                         f"polar positions outside the {rows}x{cols} frame return up to {np.abs(out[outside]).max():.3g} instead of 0")
+            continue
+        if inside.any() and (out[inside].min() < 0.7 or out[inside].max() > 2.3):
+            ck.violation(dict(site="reproject_image_into_polar", clause="inside-is-image"), rep,
+                         f"polar samples well inside the frame range over [{out[inside].min():.3g}, {out[inside].max():.3g}], the image over [1, 2]")
+            continue
+        rr, I2 = quiet(vmi.radial_intensity, "int2D", im, origin=o)
+        tot = float(np.sum(I2) * (rr[1] - rr[0]))
+        if not (0.7 * im.sum() <= tot <= 1.15 * im.sum()):        # (0.79 … 0.98 on frames this small: edge pixels are only partly sampled)
+            ck.violation(dict(site="radial_intensity", clause="conservation-bright-border"), rep,
+                         f"Σ int2D·dr = {tot:.6g} for an image with total intensity {im.sum():.6g}")
     # Jacobians, isotropic profile, conservation
     for _ in range(25 if not deep else 200):
         nimg = int(rng.choice([81, 101, 121]))
@@ -210,6 +243,25 @@ def oracle(ck, tier, deep):
         if abs(abs(lhs) - rhs) > 1e-12 * rhs:
             ck.violation(dict(site="toPES", clause="conservation"), dict(K=K, dr=dr, c=c, photon_energy=pe, Vrep=vrep),
                          f"integrated PES {lhs:.12g} vs integrated intensity {rhs:.12g}")
+    # … and the Jacobian dE = 2 c r dr is linear in the calibration factor: c·P is the same spectrum for every c, sample by sample —
+    # also for profiles that do not vanish on the axis (avg-type profiles, central spots, grids not starting at r = 0)
+    for _ in range(30 if not deep else 200):
+        K = int(rng.integers(10, 120))
+        start = 0.0 if rng.random() < 0.6 else float(rng.uniform(0.5, 4))
+        radial = start + np.arange(K + 1) * float(rng.choice([1.0, 0.5]))
+        inten = np.exp(-radial ** 2 / (0.1 * K) ** 2) + 0.3 + 0.1 * rng.random(K + 1)
+        c1, c2 = float(rng.uniform(1e-3, 10)), float(rng.uniform(20, 300))
+        ck.count(("S.topes-cal", start == 0), suite="S.toPES")
+        E1, P1 = vmi.toPES(radial, inten.copy(), c1)
+        E2, P2 = vmi.toPES(radial, inten.copy(), c2)
+        F1, Q1 = vmi.toPES(radial, inten.copy(), c1, per_energy_scaling=False)
+        rep = dict(K=K, radial_start=start, c1=c1, c2=c2, first_intensity=float(inten[0]))
+        if np.abs(P1 * c1 - P2 * c2).max() > 1e-12 * np.abs(P1 * c1).max() or np.abs(E1 / c1 - E2 / c2).max() > 1e-12 * np.abs(E1 / c1).max():
+            bad = int(np.argmax(np.abs(P1 * c1 - P2 * c2)))
+            ck.violation(dict(site="toPES", clause="calibration-scaling"), rep,
+                         f"c·P differs between calibration factors {c1:.4g} and {c2:.4g} (sample {bad}: {P1[bad] * c1:.6g} vs {P2[bad] * c2:.6g})")
+        elif np.abs(Q1 - P1 * c1).max() > 1e-12 * np.abs(Q1).max() or np.abs(F1 - E1).max() > 0:
+            ck.violation(dict(site="toPES", clause="per-pixel"), rep, "per_energy_scaling=False is not c times the per-energy spectrum on the same energy grid")
     # circularize: constant correction / already circular image
     for it in range(12 if not deep else 80):
         nimg = int(rng.choice([51, 101]))
